@@ -26,7 +26,7 @@ LINE_PASSERS = ('skip_cond_incl', 'include_file')
 
 
 # minimum number of distinct obligations per rule, confirmed by hand on the pinned tree (below: exit 2)
-FLOORS = {'R10.1': 15, 'R10.2': 90, 'R10.3': 14, 'R10.4': 40, 'R10.5': 10, 'R10.6': 47, 'R10.7': 3, 'R10.8': 15, 'R10.10': 12, 'R10.11': 12}
+FLOORS = {'R10.1': 15, 'R10.2': 90, 'R10.3': 14, 'R10.4': 40, 'R10.5': 10, 'R10.6': 47, 'R10.7': 3, 'R10.8': 15, 'R10.10': 12, 'R10.11': 9}
 
 
 def _declare_rules(rep):
@@ -51,10 +51,13 @@ def run(P, rep, tier):
                        'defined or not), compared with C11 6.10.1/6.10.2; sibling agreement of the four directive scanners; memoised '
                        'lookups keep their side effects; option table of main.c evaluated per option. Decides the state-machine '
                        'skeleton and the plumbing; does not decide the selected text for all directive sequences and include graphs, '
-                       'nor #if arithmetic (C07).')
+                       'nor #if arithmetic (C07). The contents of the hash tables (macro table, guard memo) are unknown to every rule: a lookup may find an entry or '
+                       'not. The two token-list joiners are run on concrete lists of 0..3 tokens (R10.10); the -D/-U plumbing is re-issued from C17 R17.9 and completed '
+                       'by define_macro (R10.11).')
     rep.assumptions += ['the rest of the token stream after the analysed directive is arbitrary (cut at skip_line/skip_cond_incl/eval_const_expr/...)',
                         'tokens produced by the tokenizer are newline-terminated lists ending in TK_EOF with at_bol set',
                         'equal(tok, s) compares the spelling of tok with s', 'calloc succeeds',
+                        'the successor of the TK_EOF token that ends a token list is NULL (tokenize/new_eof allocate it zeroed)',
                         'the values of -include options are non-NULL strings (parse_args stores argv words)',
                         'reference for -include lookup and for the order of the fixed system directories: gcc (working directory first, then the include path; '
                         'own headers, /usr/local/include, multiarch directory, /usr/include)']
@@ -1974,6 +1977,7 @@ def _r108_cc1(P, rep):
                                   'strerror': None, '__errno_location': None}, 'globals': gl, 'loop_limit': 2})
     bad = None
     nmax = 0
+    count = {}
     res = it.explore('cc1', lambda ctx: [], max_paths=300)
     _r108_cc1_lookup(it, res, rep, where)
     for ctx, out in res:
@@ -2014,10 +2018,39 @@ def _r108_cc1(P, rep):
             acc = e[4]
         if not okf or o[1] is not acc:
             bad = bad or 'the token lists are not joined front to back in the order -include files, main file before preprocessing'
+        # all of them: on a path that read k files the option list cannot be longer than k
+        g = ctx.globals.get('opt_include')
+        ln = g.fields.get('len') if isinstance(g, Obj) else None
+        if ln is None:
+            count['unknown'] = count.get('unknown') or 'the number of -include options is not read from opt_include.len'
+        else:
+            saved = it.ctx
+            it.ctx = ctx
+            try:
+                more = it.cmp('>', ln, len(incs))
+            except Exception as e:
+                more = None
+            finally:
+                it.ctx = saved
+            t = truth_in(it, ctx, more) if more is not None else None
+            hi = ctx.bounds.get(ln.key(), [None, None])[1] if isinstance(ln, Sym) else None
+            if t is False:
+                count['ok'] = count.get('ok', 0) + 1
+            elif t is True or (hi is not None and hi > len(incs)):
+                count['bad'] = count.get('bad') or ('on a command line with %s -include options cc1 reads only %d of them before the main file: the text of the others is missing from the '
+                                                    'translation unit' % (hi if hi is not None and hi < 1000 else 'more', len(incs)), ctx.trail)
+            else:
+                count['unknown'] = count.get('unknown') or 'whether the loop over the -include options ends at the last one could not be told on a path reading %d file(s)' % len(incs)
     if nmax == 0:
         rep.undecided('R10.8', 'main.c:cc1:include-option', 'no path of cc1 with a -include file could be followed')
         return
     rep.ob('R10.8', 'main.c:cc1:include-files-before-main-file', bad is None, bad or '', where=where)
+    if count.get('bad'):
+        rep.ob('R10.8', 'main.c:cc1:include-option-dropped', False, count['bad'][0], where=where, facts={'path': count['bad'][1]})
+    elif count.get('unknown') or not count.get('ok'):
+        rep.undecided('R10.8', 'main.c:cc1:every-include-option-read', count.get('unknown') or 'no path of cc1 reaches the preprocessor', where=where)
+    else:
+        rep.ob('R10.8', 'main.c:cc1:every-include-option-read', True, '', where=where)
     # does the fold start from "no list yet" (NULL)?  Then the joiner must accept that as well
     starts_null = any(isinstance(settle(it, e[2][0]), int) and settle(it, e[2][0]) == 0
                       for ctx, out in res for e in calls(ctx, 'append_tokens')[:1] if e[2])
@@ -2182,7 +2215,7 @@ def r1010_joiners(P, rep, null_first):
                 orig = [g.meta.get('copy_of', g) for g in got]
                 if len(orig) != len(want) or any(a is not b for a, b in zip(orig, want)):
                     bad = bad or ('%s given %s as its first list hands back [%s] instead of [%s]: the token stream differs from textual inclusion' % (
-                        fn, said, ' '.join(g.label or '?' for g in got) or 'nothing', ' '.join(w.label for w in want)))
+                        fn, said, ' '.join(g.label or '?' for g in orig) or 'nothing', ' '.join(w.label for w in want)))
                 elif any(g is not w for g, w in zip(got[len(want) - len(ctx.l2):], ctx.l2)):
                     bad = bad or '%s does not hand back the second list itself as the tail of the result' % fn
             rep.ob('R10.10', key + tag + ('' if bad is None else '/wrong-list'), bad is None, bad or '', where=where)
